@@ -19,10 +19,11 @@ VARIABLES
   granted,  \* set of <<voter, term, candidate>> : voter's votedFor was candidate in term at some time
   maxTerm,  \* node -> highest term it ever held (survives restarts)
   ackIdx,   \* node -> highest log index it acknowledged to a leader (success reply sent) or, as leader, committed
+  subm,     \* command id -> code version enabled at the submitting node when a versioned call was made (C17)
   preCrash, \* node -> [log, ack] it had when its process last died (Nil while it runs undisturbed since start-up)
   lastTick  \* the node whose tick produced this state, or Nil (set by the wrappers: CoreMC, CoreSim, CoreTrace)
 
-gvars == <<G, CG, elected, granted, maxTerm, ackIdx, preCrash, lastTick>>
+gvars == <<G, CG, elected, granted, maxTerm, ackIdx, subm, preCrash, lastTick>>
 
 Live(n) == node[n].alive
 IsVoter(n) == n \notin Observers
@@ -44,7 +45,7 @@ ElectedOf(nd) == {<<nd[n].term, n>> : n \in {m \in Nodes : nd[m].alive /\ nd[m].
 GrantedOf(nd) == {<<n, nd[n].term, nd[n].votedFor>> : n \in {m \in Nodes : nd[m].alive /\ nd[m].votedFor # Nil}}
 
 GInit == /\ lastTick = Nil /\ maxTerm = [n \in Nodes |-> 0] /\ ackIdx = [n \in Nodes |-> 0]
-         /\ preCrash = [n \in Nodes |-> [has |-> FALSE]] /\ G = GOf(node) /\ CG = {<<1, 0, NoopCmd, 0>>} /\ elected = ElectedOf(node) /\ granted = GrantedOf(node)
+         /\ preCrash = [n \in Nodes |-> [has |-> FALSE]] /\ subm = <<>> /\ G = GOf(node) /\ CG = {<<1, 0, NoopCmd, 0>>} /\ elected = ElectedOf(node) /\ granted = GrantedOf(node)
 (* extra: states a process went through INSIDE the step and that are no longer visible afterwards (the state *)
 (* of a process at the moment it was killed in the middle of a step); records with hist, log, commit, term     *)
 GNextWith(extra) ==
@@ -58,6 +59,13 @@ GNextWith(extra) ==
          /\ ackIdx' = [n \in Nodes |->
                IF ~node'[n].alive THEN ackIdx[n]
                ELSE MaxOf({ackIdx[n]} \cup AckOf(n))]
+         /\ subm' = LET new == {<<n, k>> \in Nodes \X (1..64) :
+                                    /\ node'[n].alive /\ node[n].alive /\ k <= Len(node'[n].queue) /\ k > Len(node[n].queue)
+                                    /\ node'[n].queue[k].cb.k = "cb" /\ node'[n].queue[k].cb.cid \in VersionedCids}
+                     ids == {node'[p[1]].queue[p[2]].cb.cid : p \in new}
+                 IN [c \in DOMAIN subm \cup ids |->
+                        IF c \in DOMAIN subm THEN subm[c]
+                        ELSE LET p == CHOOSE q \in new : node'[q[1]].queue[q[2]].cb.cid = c IN node[p[1]].ver]
          /\ preCrash' = [n \in Nodes |->
                IF node[n].alive /\ ~node'[n].alive
                THEN [has |-> TRUE, log |-> node[n].log, ack |-> ackIdx[n],
@@ -165,6 +173,28 @@ RemovedCommitted(v) ==
   \E p \in CG : /\ p[3] = RemCmd(v)
                  /\ ~\E q \in CG : q[3] = AddCmd(v) /\ q[1] > p[1]
 
+(* C17 *)
+HistTriples(s) == {<<s.hist[k][1], s.hist[k][2], s.hist[k][3]>> : k \in 1..Len(s.hist)}
+(* every replica executes the same implementation for an entry *)
+SameMethodEverywhere ==
+  \A a, b \in Nodes : (Live(a) /\ Live(b)) =>
+     \A x \in HistTriples(node[a]), y \in HistTriples(node[b]) : (x[1] = y[1] /\ x[2] = y[2]) => x[3] = y[3]
+(* a versioned call executes the newest implementation not above the version enabled at the caller when it was made *)
+CallUsesEnabledVersion ==
+  \A n \in Nodes : Live(n) =>
+     \A x \in HistTriples(node[n]) : (x[2] \in DOMAIN subm) => x[3] = subm[x[2]]
+(* the method-name table a node resolves calls with is the one of its enabled version *)
+NameTableMatchesVersion == \A n \in Nodes : (Live(n) /\ ~node[n].needLoad) => node[n].names = node[n].ver
+(* a node whose code lacks an enabled version does not apply the switch nor anything after it *)
+VerCmd(k) == "ver:" \o ToString(k)
+LackingNodeStops ==
+  \A n \in Nodes : Live(n) =>
+     \A i \in 1..Len(node[n].log) :
+        (\E k \in 0..4 : k > node[n].codeVer /\ node[n].log[i].cmd = VerCmd(k)) => node[n].applied < node[n].log[i].idx
+(* only supported versions ever get into a log *)
+SwitchValidation ==
+  \A n \in Nodes : Live(n) => \A i \in 1..Len(node[n].log) : \A k \in 3..6 : node[n].log[i].cmd # VerCmd(k)
+
 (* C18: a read-only node never votes, never stands, never leads *)
 ObserverNeverVotesOrLeads ==
   /\ \A o \in Observers : Live(o) => (node[o].role = "F" /\ node[o].votedFor = Nil /\ node[o].votes = 0)
@@ -188,6 +218,11 @@ StateViolations ==
 \cup (IF LogContiguous THEN (IF LogMatching THEN {} ELSE {"C04.LogMatching"}) ELSE {"C04.LogContiguous"})
 \cup (IF CommittedNotBeyondLog THEN {} ELSE {"C04.AppliedWithinCommit"})
 \cup (IF NoEscape THEN {} ELSE {"C12.NoEscape"})
+\cup (IF SameMethodEverywhere THEN {} ELSE {"C17.SameMethodEverywhere"})
+\cup (IF CallUsesEnabledVersion THEN {} ELSE {"C17.CallUsesEnabledVersion"})
+\cup (IF NameTableMatchesVersion THEN {} ELSE {"C17.NameTableMatchesVersion"})
+\cup (IF LackingNodeStops THEN {} ELSE {"C17.LackingNodeStops"})
+\cup (IF SwitchValidation THEN {} ELSE {"C17.SwitchValidation"})
 \cup (IF OneChangeAtATime THEN {} ELSE {"C10.OneChangeAtATime"})
 \cup (IF ViewFromLog THEN {} ELSE IF \A n \in ViewBad : ReapplySig(n) THEN {"C10.ViewFromLog#KF1"} ELSE {"C10.ViewFromLog"})
 \cup (IF ObserverNeverVotesOrLeads THEN {} ELSE {"C18.ObserverNeverVotesOrLeads"})
